@@ -440,8 +440,10 @@ func (x *Exec) execInstr(fr *Frame, st *State, ins ssa.Instruction) {
 		p := base.P
 		if p == nil {
 			p = x.ptrFromTerm(base.T, i.X.Type())
-			x.oblige(st, "nil", x.srcLabel(i.Pos(), "selector"), x.implicitTags(fr, "nil"), Not(Eq(base.T, IntLit(0, SInt))), i.Pos())
-			st.assume(Not(Eq(base.T, IntLit(0, SInt))))
+			if !fr.pure {
+				x.oblige(st, "nil", x.srcLabel(i.Pos(), "selector"), x.implicitTags(fr, "nil"), Not(Eq(base.T, IntLit(0, SInt))), i.Pos())
+				st.assume(Not(Eq(base.T, IntLit(0, SInt))))
+			}
 		}
 		ft := st_.Underlying().(*types.Struct).Field(i.Field).Type()
 		fr.vals[i] = &SV{P: p.with(PathStep{Field: i.Field, T: ft})}
@@ -715,10 +717,10 @@ func (x *Exec) execSlice(fr *Frame, st *State, i *ssa.Slice) {
 		}
 		if p.Ref == nil || p.Elem != nil || len(p.Path) > 0 {
 			// slicing a local array: copy it to a fresh heap array
-			if p.Local != nil && len(p.Path) == 0 {
+			if (p.Local != nil || p.Global != nil) && len(p.Path) == 0 {
 				r := x.newRef(st)
 				n, e := x.elemComp(st.heap, at.Elem())
-				x.setComp(st.heap, n, Store(e, r, fr.cells[p.Local]))
+				x.setComp(st.heap, n, Store(e, r, x.loadBase(fr, st.heap, p)))
 				// NOTE: aliasing between the local array and the slice is not modelled; the local is not used afterwards in the patterns present
 				p = &Ptr{Ref: r, Base: u.Elem()}
 				x.notes = append(x.notes, "slice of local array copied to heap in "+fr.fn.String())
